@@ -306,6 +306,31 @@ def _inside_section(path, lineno):
     return depth > 0
 
 
+def coqchk(pid, timeout=3000):
+    """independent re-check of Properties/<pid>.vo and everything it depends on (thorough tier); cached by the
+    hash of the compiled files of the dependency closure. Returns (ok, summary text)."""
+    closure = dep_closure(["Properties/%s.v" % pid])
+    h = hashlib.sha1()
+    for rel in closure:
+        vo = os.path.join(COQ, rel[:-2] + ".vo")
+        if os.path.exists(vo):
+            h.update(open(vo, "rb").read())
+    cache_dir = os.path.join(WORK, "coqchk")
+    os.makedirs(cache_dir, exist_ok=True)
+    cf = os.path.join(cache_dir, "%s-%s.txt" % (pid, h.hexdigest()[:16]))
+    if os.path.exists(cf):
+        out = open(cf).read()
+    else:
+        rc, out, _ = sh(["coqchk", "-silent", "-o", "-Q", ".", "MevVerif", "MevVerif.Properties.%s" % pid], cwd=COQ,
+                        timeout=timeout)
+        out = "rc=%d\n%s" % (rc, out)
+        with open(cf, "w") as f:
+            f.write(out)
+    ok = out.startswith("rc=0") and "* Axioms: <none>" in out.replace("\n  ", " ")
+    m = re.search(r"CONTEXT SUMMARY.*", out, flags=re.S)
+    return ok, (m.group(0) if m else out[-1500:])
+
+
 def theorems_in(path):
     txt = open(path).read()
     return re.findall(r"^\s*Theorem\s+(\w+)", txt, flags=re.M)
